@@ -171,7 +171,8 @@ def round_trip(env, store, graph, src_desc, fmts=None, eps=None):
     gid = graph.graph_id
     base = canon.graph_snapshot(imp, gid)
     if base is None:
-        ctx.mark_inconclusive('source graph not in store')
+        # a generated model that ended up empty (e.g. every element was removed again): nothing to serialize
+        ctx.count('source-model-empty-skipped')
         return
     chash = __import__('vlib.core', fromlist=['digest']).digest(base)
     try:
